@@ -6,5 +6,5 @@ if ! git diff --quiet; then echo "repo dirty"; exit 2; fi
 /venv/bin/python "$SD/demo.py" /repo/src >/dev/null 2>&1; echo "demo on clean tree: exit $?"
 git apply "$SD/patch.diff" || { echo "patch does not apply"; exit 2; }
 /venv/bin/python "$SD/demo.py" /repo/src >/dev/null 2>&1; echo "demo on patched tree: exit $?"
-( cd /verif && ./vcheck "$PID" --tier "$TIER" > /tmp/seedtest.out 2>&1; echo "check exit $?"; grep -E "^VIOLATION|^  obligation|^HARNESS|^SUMMARY" /tmp/seedtest.out | head -6 )
+( cd /verif && export VERIF_EVIDENCE_DIR=/tmp/seedtest-evidence VERIF_REPLAY_DIR=/tmp/seedtest-replays && ./vcheck "$PID" --tier "$TIER" > /tmp/seedtest.out 2>&1; echo "check exit $?"; grep -E "^VIOLATION|^  obligation|^HARNESS|^SUMMARY" /tmp/seedtest.out | head -6 )
 git checkout -- . ; git status --short | head -3
